@@ -105,7 +105,7 @@ TStepRest ==
   \/ (Nx("clock") /\ ClockJump(NR.dw))
   \/ (Nx("pol.next") /\ st.pc = "R5" /\ R5_Next(NR.ans, "R7"))
   \/ (Nx("tm.fire") /\ ((\E w \in {"until", "for", "rb"} : FireTimer(w)) \/ FireStale(NR.tid)))
-  \/ (Nx("ctl.send") /\ (CtlSendIdle(NR.src) \/ CtlSendBusy(NR.src)))
+  \/ (Nx("ctl.send") /\ (CtlSendIdle(NR.src) \/ CtlSendBusy(NR.src) \/ CtlSendPing(NR.src)))
   \/ (~NxStim /\ (R7_TakeTimer \/ R7_TakeCtl))
   \/ (Nx("pol.check") /\ R8_Allowed(NR.ans))
   \/ P1_Checking \/ P4a_Build
